@@ -1,5 +1,6 @@
 import BSModel.Driver.Util
 import BSModel.Model.EncodingIn
+import BSModel.Model.EncodingRx
 /-! line protocol of property C07 (see harness/c07.py for the grammar) -/
 namespace BS.Drv.C07
 open BS BS.EncodingIn BS.Drv
@@ -36,13 +37,14 @@ def pEntry (s : String) : Option Entry :=
   | _ => none
 
 /-- the tabulated codec oracle of one case: answers only for the shipped (BOM-stripped) data -/
-def mkCodecs (data : Bytes) (tab : String) (texts : String) : Codecs :=
+def mkCodecs (data : Bytes) (tab : String) (texts : String) (chardet : Option Name := none) : Codecs :=
   let es := (splitNE ";" tab).filterMap pEntry
   let ts : List PStr := (splitNE ";" texts).map pName
   let find (n : Name) : Option Entry := es.find? (·.name == n)
   { codecExists := fun n => match find n with | some e => e.ex | none => false
     decodeStrict := fun n d => if d == data then (find n).bind (·.strict) |>.bind (ts[·]?) else none
-    decodeReplace := fun n d => if d == data then (find n).bind (·.repl) |>.bind (ts[·]?) else none }
+    decodeReplace := fun n d => if d == data then (find n).bind (·.repl) |>.bind (ts[·]?) else none
+    chardet := fun _ => chardet }
 
 def sResult (r : Result) : String :=
   s!"text={sOptText r.text} enc={sOptName r.originalEncoding} decl={sOptName r.declaredHtml} repl={bit r.containsReplacement}"
@@ -50,30 +52,66 @@ def sResult (r : Result) : String :=
 def mkArgs (html known override user excl : String) : Args :=
   { known := pNames known, override := pNames override, user := pNames user, exclude := pNames excl, isHtml := html == "1" }
 
+/-! regex fragment on the wire: atoms `;`-separated: `(` `)` `1/<cls>` `r<min1><many><greedy>/<cls>`;
+    cls: `L<c>` `N<c>` `A` `S` `O<sp><neg>,<c.c.c|->` -/
+def pCls (s : String) : Option Rx.Cls :=
+  match s.toList with
+  | 'L' :: r => (String.ofList r).toNat?.map .lit
+  | 'N' :: r => (String.ofList r).toNat?.map .notLit
+  | ['A'] => some .any
+  | ['S'] => some .space
+  | 'O' :: sp :: neg :: ',' :: r => some (.oneOf (natList "." (String.ofList r)) (sp == '1') (neg == '1'))
+  | _ => none
+
+def pAtom (s : String) : Option Rx.Atom :=
+  if s == "(" then some .gopen else if s == ")" then some .gclose else
+  match s.splitOn "/" with
+  | ["1", c] => (pCls c).map .one
+  | [h, c] =>
+    match h.toList with
+    | ['r', a, b, g] => (pCls c).map fun k => .rep k (a == '1') (b == '1') (g == '1')
+    | _ => none
+  | _ => none
+
+def sOptGroup : Option (List Nat) → String
+  | none => "none"
+  | some g => showL g
+
 def handle : List String → String
+  | ["declaredrx", isStr, b, html, entire] => sOptName (Rx.findDeclaredRx (isStr == "1") (cps b) (html == "1") (entire == "1"))
+  | ["rx", flavor, anchored, atoms, subject, endpos] =>
+    let F := if flavor == "s" then Rx.strFlavor else Rx.bytesFlavor
+    match (splitNE ";" atoms).mapM pAtom with
+    | none => "bad-pattern"
+    | some as => sOptGroup (Rx.search F ⟨anchored == "1", as⟩ (cps subject) endpos.toNat!)
   | ["declared", b, html] => sOptName (findDeclared (cps b) (html == "1"))
   | ["bom", b] => let r := stripBom (cps b); s!"{showL r.1} {sOptName r.2}"
-  | ["encodings", b, html, known, override, user, excl] =>
+  | ["encodings", b, html, known, override, user, excl, ch] =>
     let a := mkArgs html known override user excl
     let sb := stripBom (cps b)
-    sNames (detectorEncodings a sb.2 (findDeclared sb.1 a.isHtml))
-  | ["candidates", b, html, known, override, user, excl] =>
+    sNames (detectorEncodings a sb.2 (findDeclared sb.1 a.isHtml) (pOptName ch))
+  | ["encodingsstr", t, html, known, override, user, excl] =>
+    sNames (Rx.detectorEncodingsStr (mkArgs html known override user excl) (cps t))
+  | ["candidates", b, html, known, override, user, excl, ch] =>
     let a := mkArgs html known override user excl
     let sb := stripBom (cps b)
-    sNames (candidates (a.known ++ a.override) sb.2 a.user (findDeclared sb.1 a.isHtml) (exclSet a))
-  | ["dammit", m, html, known, override, user, excl, data, tab, texts] =>
-    sResult (dammit (mkCodecs (cps data) tab texts) (mkArgs html known override user excl) (pMarkup m))
-  | ["dammitspec", m, html, known, override, user, excl, data, tab, texts] =>
+    sNames (candidates (a.known ++ a.override) sb.2 a.user (findDeclared sb.1 a.isHtml) (pOptName ch) (exclSet a))
+  | ["dammit", m, html, known, override, user, excl, ch, data, tab, texts] =>
+    sResult (dammit (mkCodecs (cps data) tab texts (pOptName ch)) (mkArgs html known override user excl) (pMarkup m))
+  | ["dammitspec", m, html, known, override, user, excl, ch, data, tab, texts] =>
     let a := mkArgs html known override user excl
     match pMarkup m with
     | .str _ => "str"
     | .bytes b =>
-      let sb := stripBom b
-      let r := dammitSpec (mkCodecs (cps data) tab texts) sb.1
-        (candidates (a.known ++ a.override) sb.2 a.user (findDeclared sb.1 a.isHtml) (exclSet a))
+      let C := mkCodecs (cps data) tab texts (pOptName ch)
+      let r := dammitSpec C (stripBom b).1 (candidatesOf C a b)
       s!"text={sOptText r.1} enc={sOptName r.2.1} repl={bit r.2.2}"
-  | ["prepare", m, fromEnc, excl, data, tab, texts] =>
-    match prepareMarkup (mkCodecs (cps data) tab texts) (pMarkup m) (pOptName fromEnc) (pNames excl) with
+  | ["construct", m, fromEnc, fromEncOld, excl, ch, data, tab, texts] =>
+    match constructorPrepare (mkCodecs (cps data) tab texts (pOptName ch)) (pMarkup m) (pOptName fromEnc) (pOptName fromEncOld) (pNames excl) with
+    | .rejected => "rejected"
+    | .ok t e d r => s!"ok text={showL t} enc={sOptName e} decl={sOptName d} repl={bit r}"
+  | ["prepare", m, fromEnc, docDecl, excl, ch, data, tab, texts] =>
+    match prepareMarkupFull (mkCodecs (cps data) tab texts (pOptName ch)) (pMarkup m) (pOptName fromEnc) (pOptName docDecl) (pNames excl) with
     | .rejected => "rejected"
     | .ok t e d r => s!"ok text={showL t} enc={sOptName e} decl={sOptName d} repl={bit r}"
   | _ => "bad-op"
